@@ -336,12 +336,100 @@ def shadow_control_local(s, e0, kcat):
     return vmax * s / (1.0 + s)
 
 
+# ---- function-local imports that shadow module-level names (seeded C06-9: the operands of the
+# `members-of-the-module | local imports` merges swapped, so the module-level binding wins) ----
+from harness.c06_libfast import consts, scale  # noqa: E402
+
+
+def scope_global_fn(s):
+    return scale(s)
+
+
+def scope_local_fn(s):
+    from harness.c06_libslow import scale
+
+    return scale(s)  # CPython calls the locally imported function: 3 s
+
+
+def scope_local_const(s):
+    from harness.c06_libslow import consts
+
+    return consts.K * s
+
+
+def scope_local_module_fn(s):
+    from harness.c06_libslow import consts
+
+    return consts.sat(s)
+
+
+def scope_global_const(s):
+    return consts.K * s + consts.sat(s)
+
+
+def scope_local_in_branch(s, k):
+    if s > 1:
+        from harness.c06_libslow import scale
+
+        return scale(s) + k
+    return k * s
+
+
+def scope_helper_with_import(x):
+    from harness.c06_libslow import scale
+
+    return scale(x) + 1.0
+
+
+def scope_calls_helper(s):
+    return scale(s) + scope_helper_with_import(s)  # the caller's scale is the module-level one
+
+
+def scope_alias_unused(s):
+    from harness.c06_libslow import scale as sc  # noqa: F401
+
+    return scale(s)  # Python: the module-level scale (finding local-import-alias-ignored: translated with slow.scale)
+
+
+def scope_alias_used(s):
+    from harness.c06_libslow import scale as sc
+
+    return sc(s) + scale(s)
+
+
+def scope_alias_module(s):
+    import harness.c06_constsslow as consts
+
+    return consts.K * s
+
+
+# ---- lambdas (seeded C06-10: the first lambda of the source statement with the same parameter names is translated) ----
+lam_single = lambda s, k: k * s  # noqa: E731
+lam_fwd_named, lam_bwd_named = (lambda a, kf: kf * a), (lambda b, kr: kr * b / (1.0 + b))
+RATES = {"fwd": lambda s, k: k * s, "bwd": lambda s, k: k * s / (1.0 + s)}
+lam_rates_fwd, lam_rates_bwd = RATES["fwd"], RATES["bwd"]
+NESTED = [[lambda s: 2.0 * s], lambda s: s + 1.0]  # ast.walk finds the SECOND lambda first
+lam_nested_first, lam_nested_second = NESTED[0][0], NESTED[1]
+
+
+def rate_with_alt(s, k, alt=lambda s, k: s + k):  # noqa: ARG001
+    return k * s
+
+
+lam_on_def_line = rate_with_alt.__defaults__[0]  # its source statement is the def (finding lambda-on-def-line)
+
+
 # witnesses of recorded (unrepaired) findings: id -> (function, model_args)
 KNOWN = {
     "sympy-mod-common-factor": ("mod_common_factor", None),
     "fallthrough-callee-compared": ("compares_none", None),
     "zero-arg-call-of-defaulted-helper": ("caller0", None),
+    "local-import-alias-ignored": ("scope_alias_unused", None),
+    "lambda-on-def-line": ("lam_on_def_line", None),
 }
+
+# further witnesses of a recorded finding (same guard): run as ordinary witnesses once the finding is no longer recorded
+KNOWN_MORE = {"local-import-alias-ignored": [("scope_alias_module", ["x"]), ("scope_alias_module", None)]}
 
 WITNESSES = [
     ("swap", ["b", "a"]),
@@ -398,4 +486,21 @@ WITNESSES = [
     ("shadow_tuple", None),
     ("shadow_control_constant", None),
     ("shadow_control_local", ["e0", "kcat", "s"]),
+    ("scope_global_fn", None),
+    ("scope_local_fn", None),
+    ("scope_local_fn", ["x"]),
+    ("scope_local_const", None),
+    ("scope_local_module_fn", ["x"]),
+    ("scope_global_const", None),
+    ("scope_local_in_branch", ["k", "s"]),
+    ("scope_calls_helper", None),
+    ("scope_alias_used", None),
+    ("lam_single", ["S", "K"]),
+    ("lam_fwd_named", None),
+    ("lam_bwd_named", ["B", "KR"]),
+    ("lam_rates_fwd", ["S", "K"]),
+    ("lam_rates_bwd", ["S", "K"]),
+    ("lam_rates_bwd", None),
+    ("lam_nested_first", ["x"]),
+    ("lam_nested_second", None),
 ]
